@@ -23,6 +23,11 @@ def trivia_strings(rng, cfg, n):
         out.append(bytes([b]) * rng.choice([2, 15, 16, 17, 40]))
     out += [b";\n", b"; comment ( [ { \" \\ #_ \n", b";;;\n;\n", b" ;x\n ", b",,,", b"#_ 1 ", b"#_[1 #_2 3] ", b"#_ #_ 1 2 ", b"#_#t 5 ", b"#_ #id #fail 7 ",
             b"#_\"a;b\" ", b"#_ {:a #_ 1 2} ", b"#_ \\a ", b"#_:k ", b"#_ ##Inf ", b"#_ #{1 2} "]
+    # a comment / discard marker right after 13..33 blanks (the marker falls on every lane of a 16-byte block)
+    for k in (13, 14, 15, 16, 17, 30, 31, 32, 33):
+        for b in (b" ", b",", b"\t", b"\n"):
+            out.append(b * k + b";c " + b * 3 + b"\n")
+            out.append(b * k + b"#_ x ")
     for _ in range(n):
         out.append(G.gen_trivia(rng, cfg, must=True, rich=True))
     return out
